@@ -1,9 +1,11 @@
 (** C08 obligation: /repo's Parser.py, as translated on this run, IS the variant the theorems are about *)
 From OfxV Require Import Base.Prelude Base.SgmlBase Model.Sgml Gen.SgmlGen.
 Local Open Scope N_scope.
+(** [source_is_pinned]: the normalised-AST hashes of TreeBuilder.__init__/start/end/close/feed/_feedmatch/_start/_groomstring, OFXTree.parse,
+    utils.indent and utils.tostring_unclosed_elements are the ones Model/Sgml.v and Model/Serialize.v were transcribed from (tools/ofxv/translate_sgml.py). *)
 (** [repo_cfg] is regenerated from the regex and from the start/end/close overrides of ofxtools.Parser.TreeBuilder; on the
     unrepaired tree it is [legacy] and this obligation fails; a pattern text that is neither of the two known ones is
     assumed to be a rewrite of the repaired one and the correspondence runs switch to their deep setting (see parse_ok_implies_nested_refuted_legacy). *)
-Theorem source_is_repaired_variant : repo_cfg = repaired /\ py_isspace = space_points.
+Theorem source_is_repaired_variant : repo_cfg = repaired /\ source_is_pinned = true /\ py_isspace = space_points.
 Proof. repeat split; reflexivity. Qed.
 Print Assumptions source_is_repaired_variant.
